@@ -82,7 +82,29 @@ def to_compact_rule(ck, ix):
         newname = defs.single(newname.id) or newname
     ok = len(ren) == 1 and norm(ren[0].func.value) == "q_base._units" and norm(ren[0].args[0]) == "unit_str" and isinstance(newname, ast.BinOp) and isinstance(newname.op, ast.Add) and norm(newname.right) == "unit_str"
     ck.check(ok, "G-PROV", "to_compact|only-one-unit-renamed-with-prefix", f.loc(), "units change only by prefixing one entry", "to_compact no longer changes the units only by renaming one entry to prefix + unit")
-    ck.check("index = bisect.bisect_left(SI_powers, power)" in norm(f.node) and "if index >= len(SI_bases)" in norm(f.node), "G-PROV", "to_compact|prefix-lookup", f.loc(), "prefix looked up by bisect, clamped", "the prefix lookup by bisect/clamp changed")
+    # prefix lookup, by role: I = bisect_left(P, power); I clamped to -1 when I >= len(B); the prefix is B[I]; P and B
+    # are the key and value columns of the same sorted table
+    from .. import shape as _shp
+    okl = False
+    for a_ in [a_ for a_ in walk_local(f.node) if isinstance(a_, ast.Assign) and isinstance(a_.targets[0], ast.Name) and isinstance(a_.value, ast.Call) and call_name(a_.value) == "bisect_left" and len(a_.value.args) == 2]:
+        I, P = a_.targets[0].id, a_.value.args[0]
+        for t_ in [t_ for t_ in walk_local(f.node) if isinstance(t_, ast.If)]:
+            for at, _edge in _shp.conjuncts(t_.test):
+                if _edge is not True:
+                    continue
+                mm = _shp.match(f"{I} >= len(_B)", at) or _shp.match(f"len(_B) <= {I}", at)
+                if mm is None:
+                    continue
+                B = mm["_B"]
+                clamp = any(isinstance(x, ast.Assign) and norm(x.targets[0]) == I and norm(x.value) == "-1" for st_ in t_.body for x in ast.walk(st_))
+                read = any(isinstance(x, ast.Subscript) and norm(x.value) == B and norm(x.slice) == I for x in walk_local(f.node))
+                dp, db = _shp.unalias(P, f.node), _shp.unalias(ast.Name(id=B, ctx=ast.Load()), f.node)
+                defs15 = defs_of(f)
+                vp = [v for v, k, s_ in defs15.defs.get(norm(P), []) if v is not None]
+                vb = [v for v, k, s_ in defs15.defs.get(B, []) if v is not None]
+                same = bool(vp) and bool(vb) and isinstance(vp[0], ast.ListComp) and isinstance(vb[0], ast.ListComp) and norm(vp[0].generators[0].iter) == norm(vb[0].generators[0].iter)
+                okl = okl or (clamp and read and same)
+    ck.check(okl, "G-PROV", "to_compact|prefix-lookup", f.loc(), "prefix looked up by bisect, clamped", "the prefix lookup by bisect/clamp changed")
     inf = [c for c in walk_local(f.node) if isinstance(c, ast.Call) and call_name(c) == "infer_base_unit" and c.args]
     srcs = set()
     for c in inf:
